@@ -180,6 +180,13 @@ impl Monitor for C01 {
                 if s1 > qi(0) {
                     self.cov.probe("solvency_margin_positive");
                 }
+                if matches!(ix.tag, "deposit" | "withdraw" | "repay" | "borrow") {
+                    if let Some(m) = a.get(&pre.mint) {
+                        if crate::fixtures::mint_fee_at(m, s.clock.epoch).map(|(bps, _)| bps > 0).unwrap_or(false) {
+                            self.cov.probe(if matches!(ix.tag, "deposit" | "repay") { "t22_fee_deposit" } else { "t22_fee_withdraw" });
+                        }
+                    }
+                }
                 match ix.tag {
                     "collect_bank_fees" => {
                         if q0.fees() > qu(v0) {
